@@ -102,4 +102,20 @@ theorem C10_cells_view (m : Mode) (v : VW) (n : Nat) (h : v.Inv n) :
     obtain ⟨r, _, rfl⟩ := List.mem_map.1 hw
     rfl
 
+/-- non-vacuity of `C10_cells_owned`: the fresh `cells()` cursor of a concrete 3x2 array is well-formed and stands for the
+    positions `0..6` -/
+example : (Flat.new (TD.rows (⟨[1, 2, 3, 4, 5, 6], 2, 3⟩ : TD Nat))).WF 2 6 ∧
+    (Flat.new (TD.rows (⟨[1, 2, 3, 4, 5, 6], 2, 3⟩ : TD Nat))).abs 2 = [0, 1, 2, 3, 4, 5] := by
+  obtain ⟨h1, h2, _⟩ := C10_cells_owned (⟨[1, 2, 3, 4, 5, 6], 2, 3⟩ : TD Nat) ⟨rfl, by decide, by decide⟩
+  exact ⟨h1, h2⟩
+/-- non-vacuity: collecting it, and one `next` (which opens the first row), as concrete computations -/
+example : (Flat.new (TD.rows (⟨[1, 2, 3, 4, 5, 6], 2, 3⟩ : TD Nat))).collect 5 = .ok [0, 1, 2, 3, 4, 5] := by rfl
+example : (Flat.new (TD.rows (⟨[1, 2, 3, 4, 5, 6], 2, 3⟩ : TD Nat))).next 2 =
+    .ok (some 0, ⟨⟨⟨3, 3⟩, 3, 0⟩, some ⟨1, 2⟩, none⟩) := by rfl
+/-- non-vacuity of `C10_cells_view`: `cells()` of a 2x2 window (stride 3, offset 1) of an 8-cell buffer visits 1, 2, 4, 5 -/
+example : ∃ it, VW.rows .debug ⟨⟨1, 5⟩, 2, 2, 3⟩ = .ok it ∧ (Flat.new it).abs 2 = [1, 2, 4, 5] := by
+  obtain ⟨it, h1, _, h3, _⟩ := C10_cells_view .debug ⟨⟨1, 5⟩, 2, 2, 3⟩ 8
+    ⟨by decide, by decide, by decide, by decide, by decide, by decide⟩
+  exact ⟨it, h1, h3⟩
+
 end Toodee
